@@ -46,10 +46,22 @@ class UArray(Array):
         return Array.run(self, cmd, *opts, **kw)
 
 
-def new_array(ctx, rng, nd=3, np_=2, ncontent=2, hashsize=None, pending=False, populate=True, splits=1, uuid=False):
-    a = (UArray if uuid else Array)(ctx.binary, nd=nd, np_=np_, ncontent=ncontent, shim=ctx.shim, hashsize=hashsize, splits=splits)
+def new_array(ctx, rng, nd=3, np_=2, ncontent=2, hashsize=None, pending=False, populate=True, splits=1, uuid=False, content_on=None):
+    """content_on = index of a data disk that also holds a content copy (the usual real layout) and an `exclude *.bak` rule"""
+    root = mkscratch('arr.')
+    extra = []
+    if content_on is not None:
+        extra = ['content %s' % os.path.join(root, 'd%d' % (content_on + 1), 'snapraid.content'), 'exclude *.bak']
+    a = (UArray if uuid else Array)(ctx.binary, nd=nd, np_=np_, ncontent=ncontent, shim=ctx.shim, hashsize=hashsize, splits=splits, root=root, extra_conf=extra)
+    if content_on is not None:
+        a.content_files.append(os.path.join(root, 'd%d' % (content_on + 1), 'snapraid.content'))
     if populate:
         L.populate(a, rng)
+        for di, d in enumerate(a.disks):
+            # a whole-second time-stamp (copy detection then compares the path, not the name) and a file excluded by rule
+            a.write(d, 'wholesec', rng.randbytes(1800 + 100 * di), mtime_ns=(1700003000 + di) * 10**9)
+            if content_on is not None:
+                open(a.path(d, 'junk%d.bak' % di), 'wb').write(rng.randbytes(500))
     r = a.run('sync')
     if r.rc != 0:
         raise RuntimeError('initial sync failed: %r' % r)
@@ -189,11 +201,14 @@ def cross_check_scan(ctx, o, desc):
 # ------------------------------------------------------------------------------------------------ scenarios
 
 def files_of(a, d):
+    """the files and links of a data disk that the array knows (not the content copy kept there, not the excluded *.bak)"""
     base = a.path(d, '')
     out = []
     for root, dirs, fs in os.walk(base):
         for n in fs:
             p = os.path.join(root, n)
+            if n.endswith('.bak') or n.startswith('snapraid.content'):
+                continue
             out.append(os.path.relpath(p, base))
     return sorted(out)
 
@@ -257,11 +272,24 @@ def trig_empty(a, rng, di, variant):
             os.unlink(a.path(d, f))
         return not (len(fl) >= 1)
     other = a.disks[(di + 1) % a.nd]
+    if variant == 'all_rewritten_pure':          # nothing removed: every file rewritten, the symlink retargeted (a change too)
+        for f in fl:
+            p = a.path(d, f)
+            if os.path.islink(p):
+                os.unlink(p); os.symlink('retargeted', p)
+            else:
+                a.write(d, f, rng.randbytes(os.path.getsize(p) + 3))
+        return True
+    if variant == 'two_disks_removed':
+        for dd in (d, other):
+            for f in files_of(a, dd):
+                os.unlink(a.path(dd, f))
+        return True
     if variant in ('removed_plus_copies', 'removed_plus_moved_in'):
         # every recorded file gone; new files that the scan recognises as COPIES of files of another disk (same name, size, time)
         for f in fl:
             os.unlink(a.path(d, f))
-        srcs = [f for f in files_of(a, other) if not os.path.islink(a.path(other, f)) and os.path.getsize(a.path(other, f)) > 0][:2]
+        srcs = [f for f in files_of(a, other) if not os.path.islink(a.path(other, f)) and os.path.getsize(a.path(other, f)) > 0][:2] + ['wholesec']
         for f in srcs:
             src, dst = a.path(other, f), a.path(d, f)
             os.makedirs(os.path.dirname(dst), exist_ok=True)
@@ -350,11 +378,11 @@ def trig_parity(a, rng, lvl, variant, used):
     raise KeyError(variant)
 
 
-def scenario_sync_trigger(ctx, seed, kind, where, variant, pending, shape, fmt=None, uuid=False):
+def scenario_sync_trigger(ctx, seed, kind, where, variant, pending, shape, fmt=None, uuid=False, extra=(), content_del=None, content_on=None):
     """fmt: None (version-2 content, no recorded parity sizes) | 'hashsize8' | 'split2' (version-3 content: 'Q' records)"""
     rng = random.Random(seed)
     nd, np_, nc = shape
-    a = new_array(ctx, rng, nd=nd, np_=np_, ncontent=nc, hashsize=8 if fmt == 'hashsize8' else None, splits=2 if fmt == 'split2' else 1, uuid=uuid)
+    a = new_array(ctx, rng, nd=nd, np_=np_, ncontent=nc, hashsize=8 if fmt == 'hashsize8' else None, splits=2 if fmt == 'split2' else 1, uuid=uuid, content_on=content_on)
     paths = L.Paths(a)
     desc = '%s:%s@%d%s nd=%d np=%d nc=%d%s%s' % (kind, variant, where, '+pending' if pending else '', nd, np_, nc, ' ' + fmt if fmt else '', ' uuid' if uuid else '')
     replay = {'seed': seed, 'kind': kind, 'where': where, 'variant': variant, 'pending': pending, 'shape': shape, 'content_format': fmt, 'fake_uuid': uuid}
@@ -362,9 +390,23 @@ def scenario_sync_trigger(ctx, seed, kind, where, variant, pending, shape, fmt=N
         st0 = a.content()
         if not all(m['uuid'] for m in st0['maps'][:2]):
             raise RuntimeError('--test-fake-uuid did not record UUIDs')
+    extra = list(extra)
+    if extra or content_del is not None:
+        desc += ' opts=%s%s' % (' '.join(extra), ' content copy %d deleted' % content_del if content_del is not None else '')
+        replay.update({'extra_opts': extra, 'content_deleted': content_del})
     try:
         if pending:
             add_pending(a, rng)
+        if content_on is not None:
+            desc += ' content copy and excluded *.bak on d%d' % (content_on + 1)
+            replay['content_on'] = content_on
+        if content_del is not None and nc > 1:
+            if content_del >= 0:
+                os.unlink(a.content_files[content_del % nc])
+            else:
+                # a copy other than the first with another size (broken): the first one is loaded, all are rewritten by a sync that proceeds
+                cf = a.content_files[1 + (-content_del) % (nc - 1)]
+                os.truncate(cf, os.path.getsize(cf) - 7)
         if kind == 'empty':
             fires = trig_empty(a, rng, where, variant)
             ov = [['--force-empty']]
@@ -380,14 +422,14 @@ def scenario_sync_trigger(ctx, seed, kind, where, variant, pending, shape, fmt=N
         if fires:
             # with recorded split sizes (version-3 content) parity_size() reports the recorded size, not the file's
             fk0 = 'F-C14-short-parity-undetected-with-recorded-sizes' if (kind == 'parity' and fmt) else None
-            o = run_case(ctx, a, paths, 'sync', [], 'refuse', desc, replay, finding_key=fk0)
+            o = run_case(ctx, a, paths, 'sync', extra, 'refuse', desc, replay, finding_key=fk0)
             cross_check_scan(ctx, o, desc)
             if fk0 and o.rc == 0:
                 r2 = a.run('check')
                 ctx.notes.add('short parity with recorded split sizes (%s): sync exit 0, parity file re-grown, following check exit %d' % (fmt, r2.rc))
                 return
-            run_case(ctx, a, paths, 'sync', wrong, 'refuse', desc + ' wrong-override', replay)
-            if kind != 'parity' and (ctx.tier == 'thorough' or seed % 3 == 0):
+            run_case(ctx, a, paths, 'sync', wrong + extra, 'refuse', desc + ' wrong-override', replay)
+            if kind != 'parity' and (ctx.tier == 'thorough' or seed % 3 == 0 or uuid or variant.startswith('removed_plus')):
                 # diff only warns
                 o = run_case(ctx, a, paths, 'diff', [], None, desc + ' diff', replay)
                 if o.rc != 2:
@@ -395,13 +437,15 @@ def scenario_sync_trigger(ctx, seed, kind, where, variant, pending, shape, fmt=N
             # a parity file whose size is not a multiple of the block size cannot even be opened when the content file
             # records no split size (parity.c:228-236): the forced rebuild does not get through either
             fk = 'F-C14-unaligned-parity-size-blocks-forced-rebuild' if (kind == 'parity' and variant == 'one_byte_short') else None
-            o = run_case(ctx, a, paths, 'sync', ov[seed % len(ov)], 'proceed', desc + ' override', replay, finding_key=fk)
+            o = run_case(ctx, a, paths, 'sync', ov[seed % len(ov)] + [x for x in extra if x not in ('-N', '-h') or ov[seed % len(ov)][0] not in ('-F', '-R')], 'proceed', desc + ' override', replay, finding_key=fk, after_check=not any(x in extra for x in ('-B', '-S')))
             if fk and o.rc != 0:
                 # the documented way out: remove the damaged parity file, then force the rebuild
                 os.unlink(a.parity_files[where][0])
                 run_case(ctx, a, paths, 'sync', ['-F'], 'proceed', desc + ' override after deleting the unaligned parity file', replay)
         else:
-            o = run_case(ctx, a, paths, 'sync', [], 'proceed', desc + ' (no trigger expected)', replay)
+            if uuid or seed % 2 == 0:
+                run_case(ctx, a, paths, 'diff', ['-v'], None, desc + ' diff -v (no trigger expected)', replay)
+            o = run_case(ctx, a, paths, 'sync', extra, 'proceed', desc + ' (no trigger expected)', replay, after_check=not any(x in extra for x in ('-B', '-S')))
             cross_check_scan(ctx, o, desc)
     finally:
         shutil.rmtree(a.root, ignore_errors=True)
@@ -411,6 +455,65 @@ def edit_conf(a, fn):
     lines = open(a.conf).read().split('\n')
     lines = fn(lines)
     open(a.conf, 'w').write('\n'.join(lines))
+
+
+def scenario_uuid(ctx, seed, kind, np_, pending):
+    """valid UUIDs (--test-fake-uuid).  `renamed`: a disk renamed in the configuration is recognised by its UUID by the commands
+    that access the disks (sync proceeds and renames), not by status/list/dup (they refuse).  `swapped`: both data disks
+    show the other's UUID: 2 changes; refused when that exceeds the number of parity levels unless -U"""
+    rng = random.Random(seed)
+    a = new_array(ctx, rng, nd=2, np_=np_, ncontent=2, uuid=True)
+    paths = L.Paths(a)
+    desc = 'uuid:%s np=%d%s' % (kind, np_, '+pending' if pending else '')
+    replay = {'seed': seed, 'kind': 'uuid_' + kind, 'np': np_, 'pending': pending}
+    try:
+        if pending:
+            add_pending(a, rng)
+        if kind == 'renamed':
+            edit_conf(a, lambda ls: [l.replace('disk d1 ', 'disk d1x ') if l.startswith('disk d1 ') else l for l in ls])
+            a.disks = ['d1x', 'd2']
+            for c in ('status', 'list', 'dup'):
+                run_case(ctx, a, paths, c, [], 'refuse', desc + ' ' + c + ' (no disk access: no UUID to match)', replay)
+            run_case(ctx, a, paths, 'diff', [], None, desc + ' diff', replay)
+            o = run_case(ctx, a, paths, 'sync', [], 'proceed', desc + ' sync renames', replay, after_check=False)
+            if 'Renaming disk' not in o.r.err:
+                ctx.viol('uuid_rename', 'a disk renamed in the configuration and matched by UUID is not reported as renamed: %s' % o.r.err[-200:], replay)
+            run_case(ctx, a, paths, 'status', [], 'proceed', desc + ' status after the rename was saved', replay)
+        else:
+            def swap(ls):
+                i1 = [i for i, l in enumerate(ls) if l.startswith('disk d1 ')][0]
+                i2 = [i for i, l in enumerate(ls) if l.startswith('disk d2 ')][0]
+                ls[i1], ls[i2] = ls[i2], ls[i1]
+                return ls
+            edit_conf(a, swap)
+            if np_ < 2:
+                for c in ('sync', 'check', 'diff', 'scrub', 'fix'):
+                    o = run_case(ctx, a, paths, c, [], 'refuse', desc + ' ' + c, replay)
+                    if 'UUID' not in o.r.err:
+                        ctx.viol('uuid_msg', 'refusal for changed UUIDs does not say so (%s): %s' % (c, o.r.err[-200:]), replay)
+                run_case(ctx, a, paths, 'status', [], 'proceed', desc + ' status (no disk access)', replay)
+                run_case(ctx, a, paths, 'sync', ['-U'], 'proceed', desc + ' override -U', replay)
+            else:
+                run_case(ctx, a, paths, 'sync', [], 'proceed', desc + ' (2 changes <= 2 levels: no trigger expected)', replay)
+    finally:
+        shutil.rmtree(a.root, ignore_errors=True)
+
+
+def scenario_range(ctx, seed, shape, pending):
+    """sync -S beyond the end of the array refuses before anything is touched; -S/-B inside proceed"""
+    rng = random.Random(seed)
+    nd, np_, nc = shape
+    a = new_array(ctx, rng, nd=nd, np_=np_, ncontent=nc)
+    paths = L.Paths(a)
+    replay = {'seed': seed, 'kind': 'range', 'shape': shape}
+    try:
+        if pending:
+            add_pending(a, rng)
+        run_case(ctx, a, paths, 'sync', ['-S', '100000'], 'refuse', 'range:start beyond the end', replay)
+        run_case(ctx, a, paths, 'sync', ['-S', '1', '-B', '2'], 'proceed', 'range:inside', replay, after_check=False)
+        run_case(ctx, a, paths, 'sync', ['-h'], 'proceed', 'range:then pre-hash sync', replay)
+    finally:
+        shutil.rmtree(a.root, ignore_errors=True)
 
 
 def scenario_conf(ctx, seed, kind, where, pending, shape):
@@ -732,7 +835,10 @@ def scenario_combined(ctx, seed, shape):
         for opts in ([], ['--force-empty'], ['--force-zero'], ['--force-empty', '--force-zero'], ['-F'], ['-F', '--force-zero']):
             d = L.presummary(a, paths, 'sync', opts)
             short = min(d['parity_blocks']) < d['used']
-            exp = 'refuse' if (('--force-empty' not in opts) or ('--force-zero' not in opts) or (short and '-F' not in opts)) else 'proceed'
+            # the array changes as soon as one combination gets through: what fires NOW is read from the independent summary
+            empty_f = any(e == 0 and m == 0 and r == 0 and (rm or ch) for e, m, r, rm, ch, ins, cp, z in d['disks'])
+            zero_f = any(z for *_, z in d['disks'])
+            exp = 'refuse' if ((empty_f and '--force-empty' not in opts) or (zero_f and '--force-zero' not in opts) or (short and '-F' not in opts)) else 'proceed'
             run_case(ctx, a, paths, 'sync', opts, exp, 'combined:empty+zero+parity', replay)
         run_case(ctx, a, paths, 'sync', ['-F', '--force-empty', '--force-zero'], 'proceed', 'combined:all overrides', replay)
     finally:
@@ -824,6 +930,25 @@ def main(tier, replay=None):
             for where in range(sh[1] - 1):
                 for pending in ([True] if not thorough and variant == 'truncate_zero' else [False, True]):
                     jobs.append((scenario_sync_trigger, (rng.getrandbits(30), 'parity', where, variant, pending, sh)))
+    # triggers under other options of the same sync (pre-hash, ranges, no-copy, verbose/gui) and with a content copy missing
+    combos = [('empty', 'all_removed', ['-h']), ('zero', 'truncate', ['-B', '2']), ('parity', 'one_block_short', ['-h']), ('empty', 'mixed', ['-N']),
+              ('zero', 'truncate_keep_mtime', ['-v']), ('parity', 'delete', ['-S', '1']), ('empty', 'all_rewritten_pure', []), ('empty', 'two_disks_removed', ['-G']),
+              ('zero', 'truncate', ['-G', '-h']), ('parity', 'truncate_zero', ['-N'])]
+    for i, (kind, variant, extra) in enumerate(combos if thorough else combos[:8]):
+        sh = [(3, 2, 2), (4, 2, 3), (3, 3, 1)][i % 3]
+        where = rng.randrange(sh[1] if kind == 'parity' else sh[0])
+        jobs.append((scenario_sync_trigger, (rng.getrandbits(30), kind, where, variant, bool(i % 2), sh, None, False, extra, (i % sh[2]) if i % 2 == 0 else None)))
+    # a content copy on a data disk and files excluded by rule: neither counts as a surviving file
+    for i, (kind, variant) in enumerate([('empty', 'all_removed'), ('empty', 'removed_plus_new'), ('empty', 'symlink_stays'), ('zero', 'truncate'), ('empty', 'one_file_stays')]):
+        sh = [(3, 2, 2), (2, 1, 1)][i % 2]
+        for where in ([0, 1] if thorough else [i % 2]):
+            jobs.append((scenario_sync_trigger, (rng.getrandbits(30), kind, where, variant, bool(i % 2), sh, None, False, (), None, where if i % 3 else (where + 1) % sh[0])))
+    # a broken (shorter) content copy: refused runs leave it as it is, proceeding runs rewrite it
+    for i, (kind, variant) in enumerate([('empty', 'all_removed'), ('parity', 'one_block_short'), ('zero', 'truncate')]):
+        jobs.append((scenario_sync_trigger, (rng.getrandbits(30), kind, 0, variant, bool(i % 2), (3, 2, 3), None, False, (), -(i + 1))))
+    for kind_, np2 in (('renamed', 1), ('swapped', 1), ('swapped', 2), ('renamed', 2)):
+        jobs.append((scenario_uuid, (rng.getrandbits(30), kind_, np2, bool(np2 % 2))))
+    jobs.append((scenario_range, (rng.getrandbits(30), shape(k), True)))
     # (c') short parity with a version-3 content file (recorded split sizes)
     for fmt in ['hashsize8', 'split2']:
         for variant in (['one_block_short', 'truncate_zero'] if not thorough else ['delete', 'truncate_zero', 'one_block_short', 'exact']):
@@ -834,7 +959,7 @@ def main(tier, replay=None):
     # (d) (e) configuration
     for kind in ['blocksize', 'hashsize_recorded', 'hashsize_default', 'disk_removed', 'disk_renamed']:
         sh = shape(k)
-        wheres = range(sh[0]) if (thorough and kind.startswith('disk')) else ([0, 1, 2] if thorough else [k % 2])
+        wheres = range(sh[0]) if (thorough and kind.startswith('disk')) else ([0, 1, 2] if thorough else ([0] if kind == 'disk_renamed' else [k % 2]))
         for where in wheres:
             jobs.append((scenario_conf, (rng.getrandbits(30), kind, where, bool((k + where) % 2), sh)))
         k += 1
@@ -877,5 +1002,7 @@ def main(tier, replay=None):
     chk.assumptions += ['absent parity file == empty parity file (parity_create opens with O_CREAT before the size test)',
                         'sandbox runs use --test-skip-device: no UUIDs, so move/restore detection and the UUID-change limit (state.c:1399-1488) are modelled but not exercised; the UUID rename path is exercised through --test-match-first-uuid only',
                         'the lock is flock(LOCK_EX|LOCK_NB) on <first content>.lock on a local file system; NFS-style lock semantics are outside the model',
-                        'copy detection (a rewritten file equal in name+stamp to a file of another disk counts as copy, not change) is avoided by distinct time stamps']
+                        'copy detection is part of the independent scan summary (name or, for whole-second stamps, path + size + time equal to a fully hashed recorded file of any disk)',
+                        'exercised with the model tie: valid UUIDs (--test-fake-uuid: moved / restored files, rename of a disk by UUID, the UUID-change limit and -U), triggers under -h / -B / -S / -N / -v / -G, a content copy missing or of another size, a content copy and excluded files on the emptied disk, sync -S beyond the end',
+                        'not exercised: recorded nanoseconds invalid (pre-nanosecond content files), volatile inodes / hardlinks file systems, physical-order warnings, parity UUIDs (no block devices in the sandbox), parity_overflow after a failed grow (--test-parity-limit), text content files']
     return chk.finish()
